@@ -65,3 +65,15 @@ Proof.
   - vm_compute. reflexivity.
   - vm_compute. reflexivity.
 Qed.
+
+(* F21 (known finding), as a refutation of the unrestricted statement "every gene id owning a subfeature line gets a derived
+   gene": exon 50-60 carries gene_id "G2" only; the import succeeds, G2 owns an exon (expected_extent is Some), and no row
+   is stored under "G2" *)
+Definition f21_lines := [exl (U "G1"%bs) (U "T1"%bs) 100 200;
+  mkRow [] (U "chr1"%bs) (U "s"%bs) (U "exon"%bs) (Some 50) (Some 60) [46%N] [43%N] [46%N] [(GENE_ID, [U "G2"%bs])] [] None].
+Example C03_gene_only_refuted : exists st',
+  import_gtf (fun _ _ => None) gcfg SError [] (gtf_spec gcfg) f21_lines empty_st = Ok st' /\
+  expected_extent gcfg GENE_ID (U "G2"%bs) f21_lines = Some (50, 60, [43%N], U "chr1"%bs) /\
+  find_id (U "G2"%bs) (s_rows st') = None /\
+  (exists r, find_id (U "G1"%bs) (s_rows st') = Some r /\ r_start r = Some 100 /\ r_end r = Some 200).
+Proof. eexists. split; [vm_compute; reflexivity|]. split; [vm_compute; reflexivity|]. split; [vm_compute; reflexivity|]. eexists. vm_compute. repeat split. Qed.
